@@ -176,6 +176,11 @@ def from_lib(p):
             trans.append((q.value, EPS if isinstance(a, Epsilon) else a.value, X.value, r.value,
                           tuple(s.value for s in push if not isinstance(s, Epsilon))))
     g = p.to_networkx()
-    z0 = json.loads(g.nodes["INITIAL_STACK_HIDDEN"]["label"]) if "INITIAL_STACK_HIDDEN" in g.nodes else None
+    z0 = None
+    for node in g.nodes:
+        # the hidden node carrying the start stack symbol: named INITIAL_STACK_HIDDEN (plus padding when a
+        # state has that name) and, unlike state nodes, without the is_start attribute
+        if isinstance(node, str) and node.startswith("INITIAL_STACK_HIDDEN") and "is_start" not in g.nodes[node]:
+            z0 = json.loads(g.nodes[node]["label"])
     return RefPDA(p.start_state.value if p.start_state is not None else None, z0,
                   [s.value for s in p.final_states], trans, [s.value for s in p.states])
